@@ -114,12 +114,12 @@ Proof. intros d. split; [apply as_millis_floor|apply as_nanos_total]. Qed.
    modelled as mod 2^64, is lossless under the guard) and reports InvalidInput otherwise *)
 Theorem c02_timer_duration : forall d,
   to_value Timer (ADur d) =
-  Some (if (as_millis d <=? 2 ^ 64 - 1)%N then inr (Unsigned (as_millis d)) else inl InvalidInput).
+  Some (if (as_millis d <=? 2 ^ 64 - 1)%N then inr (Unsigned (as_millis d)) else inl EInvalid).
 Proof. exact timer_duration. Qed.
 
 Theorem c02_hist_duration : forall d,
   to_value Histogram (ADur d) =
-  Some (if (as_nanos d <=? 2 ^ 64 - 1)%N then inr (Unsigned (as_nanos d)) else inl InvalidInput).
+  Some (if (as_nanos d <=? 2 ^ 64 - 1)%N then inr (Unsigned (as_nanos d)) else inl EInvalid).
 Proof. exact hist_duration. Qed.
 
 (* the exact boundaries, for well-formed Durations (secs < 2^64, nanos < 10^9) *)
@@ -133,13 +133,13 @@ Proof. intros d H. split; [exact (millis_guard d H)|exact (nanos_guard d H)]. Qe
 (* packed Durations: InvalidInput iff SOME element, at any index, overflows; otherwise the
    element-wise counts — same length, same order *)
 Theorem c02_packed_durations : forall l,
-  (to_value Timer (AVecDur l) = Some (inl InvalidInput) <->
+  (to_value Timer (AVecDur l) = Some (inl EInvalid) <->
    exists i d, nth_error l i = Some d /\ (2 ^ 64 - 1 < as_millis d)%N) /\
-  (to_value Timer (AVecDur l) = Some (inl InvalidInput) \/
+  (to_value Timer (AVecDur l) = Some (inl EInvalid) \/
    to_value Timer (AVecDur l) = Some (inr (PackedUnsigned (map as_millis l)))) /\
-  (to_value Histogram (AVecDur l) = Some (inl InvalidInput) <->
+  (to_value Histogram (AVecDur l) = Some (inl EInvalid) <->
    exists i d, nth_error l i = Some d /\ (2 ^ 64 - 1 < as_nanos d)%N) /\
-  (to_value Histogram (AVecDur l) = Some (inl InvalidInput) \/
+  (to_value Histogram (AVecDur l) = Some (inl EInvalid) \/
    to_value Histogram (AVecDur l) = Some (inr (PackedUnsigned (map as_nanos l)))).
 Proof.
   intros l. cbn [to_value]. repeat split.
@@ -177,16 +177,21 @@ Proof.
 Qed.
 
 (* ------------------------------------------------------------------ rejection *)
-(* a value rejected by its conversion yields an invalid-input error, nothing is handed to
-   the sink and no sink outcome is consumed — whatever the form and the sink script *)
+(* a value rejected by its conversion yields exactly the conversion's error -- the
+   invalid-input error, unless the argument is a user-defined value whose own conversion
+   returned [e] --, nothing is handed to the sink and no sink outcome is consumed — whatever the
+   form and the sink script *)
 Theorem c02_reject_no_emit : forall cfg fm c script e,
   to_value (k_kind c) (k_arg c) = Some (inl e) ->
-  exists o, send_call cfg fm c script = Some (o, script) /\ o_emitted o = [] /\
+  (exists o, send_call cfg fm c script = Some (o, script) /\ o_emitted o = [] /\
     match fm with
-    | Quiet => o_ret o = RUnit /\ o_handled o = [EInvalid]
-    | _ => o_ret o = RError EInvalid /\ o_handled o = []
-    end.
-Proof. exact reject_no_emit. Qed.
+    | Quiet => o_ret o = RUnit /\ o_handled o = [e]
+    | _ => o_ret o = RError e /\ o_handled o = []
+    end) /\
+  (e = EInvalid \/ k_arg c = AUserErr e).
+Proof.
+  intros cfg fm c script e H. split; [exact (reject_no_emit cfg fm c script e H)|exact (to_value_err _ _ _ H)].
+Qed.
 
 (* the same for an empty packed list (the repaired behaviour, defect D1) *)
 Theorem c02_empty_no_emit : forall cfg fm c script v,
@@ -214,12 +219,12 @@ Local Open Scope N_scope.
 Example c02_witness_durations :
   let d s n := {| secs := s; nanos := n |} in
   to_value Timer (ADur (d 18446744073709551 615999999)) = Some (inr (Unsigned 18446744073709551615)) /\
-  to_value Timer (ADur (d 18446744073709551 616000000)) = Some (inl InvalidInput) /\
+  to_value Timer (ADur (d 18446744073709551 616000000)) = Some (inl EInvalid) /\
   to_value Histogram (ADur (d 18446744073 709551615)) = Some (inr (Unsigned 18446744073709551615)) /\
-  to_value Histogram (ADur (d 18446744073 709551616)) = Some (inl InvalidInput) /\
+  to_value Histogram (ADur (d 18446744073 709551616)) = Some (inl EInvalid) /\
   to_value Timer (ADur (d 1 1999999)) = Some (inr (Unsigned 1001)) /\
-  to_value Timer (ADur (d 18446744073709551615 999999999)) = Some (inl InvalidInput) /\
-  to_value Timer (AVecDur [d 0 1000000; d 18446744073709551615 0; d 2 0]) = Some (inl InvalidInput) /\
+  to_value Timer (ADur (d 18446744073709551615 999999999)) = Some (inl EInvalid) /\
+  to_value Timer (AVecDur [d 0 1000000; d 18446744073709551615 0; d 2 0]) = Some (inl EInvalid) /\
   to_value Timer (AVecDur [d 0 1000000; d 3 999999; d 2 0]) = Some (inr (PackedUnsigned [1; 3000; 2000])) /\
   (forall cfg fm script,
      option_map (fun os => (o_emitted (fst os), snd os))
@@ -287,7 +292,7 @@ Proof. exact packed_floats_on_the_wire. Qed.
 (* ... and the empty list is invalid input *)
 Theorem c02_packed_floats_empty : forall cfg c,
   (k_kind c = Histogram \/ k_kind c = Distribution) -> k_arg c = AVecF64 [] ->
-  client_line cfg c = Some (inl InvalidInput).
+  client_line cfg c = Some (inl EInvalid).
 Proof. intros cfg c. exact (packed_floats_empty unit (fun _ => []) cfg c). Qed.
 
 (* the assumption stated for ALL values (the form suggested by the audit, for any F): then
@@ -337,12 +342,13 @@ Example c02_float_witness :
   view h = Some ([Some true; Some false; Some true], None).
 Proof. split; [exact toy_faithful|exact float_witness]. Qed.
 
-(* audit A.24: a user-defined To*Value type is modelled as always returning Ok(v); such a call
-   is rejected only for an empty packed value, never ill-typed, never a conversion error *)
+(* audit A.24: a user-defined To*Value type whose conversion returns Ok(v) is [AUser v]; such a
+   call is rejected only for an empty packed value, never ill-typed, never a conversion error
+   (a conversion returning Err(e) is [AUserErr e]: c02_user_error below) *)
 Theorem c02_user_value : forall cfg c v,
   k_arg c = AUser v ->
   (forall e, to_value (k_kind c) (k_arg c) <> Some (inl e)) /\
-  (client_line cfg c = Some (inl InvalidInput) <->
+  (client_line cfg c = Some (inl EInvalid) <->
      (v = PackedSigned [] \/ v = PackedUnsigned [] \/ v = PackedFloat [])) /\
   (~ (v = PackedSigned [] \/ v = PackedUnsigned [] \/ v = PackedFloat []) ->
      exists l, client_line cfg c = Some (inr l)) /\
@@ -351,3 +357,46 @@ Proof.
   intros cfg c v Ha. split; [|exact (user_value_rejected_iff_pin cfg c v Ha)].
   intros e. rewrite Ha. exact (proj2 (user_value_never_conversion_error (k_kind c) v e)).
 Qed.
+
+(* ==== added after the audit of 2026-10-02 (selftest/audit/REPORT-2026-10-02.md) ==== *)
+(* ==== added for audit item A.24 (model extension: a user-defined value whose conversion fails) ==== *)
+Require Import Cadence.Proofs.AuditU1.
+(* a user-defined To*Value type whose conversion returns Err(e) is [AUserErr e]: for EVERY kind
+   the call type-checks, the conversion answers exactly e and no MetricValue *)
+Theorem c02_user_error_conversion : forall k e,
+  to_value k (AUserErr e) = Some (inl e) /\
+  to_value k (AUserErr e) <> None /\
+  (forall v, to_value k (AUserErr e) <> Some (inr v)) /\
+  (forall e', to_value k (AUserErr e) = Some (inl e') -> e' = e).
+Proof. exact user_error_conversion. Qed.
+
+(* the client's answer for such a call is exactly that error, whatever the configuration, the
+   kind, the key and the builder calls (an error builder ignores them); never a line; the model of
+   the tree before the fix of defect D1 agrees *)
+Theorem c02_user_error : forall cfg c e,
+  k_arg c = AUserErr e ->
+  client_line cfg c = Some (inl e) /\
+  client_line_v0 cfg c = Some (inl e) /\
+  build cfg c = Some (inl e) /\
+  accepted cfg c = false /\
+  (forall l, client_line cfg c <> Some (inr l)).
+Proof. exact user_error_line. Qed.
+
+(* conversely a conversion error is InvalidInput and comes from a Duration, a packed Duration
+   list or a user's impl -- or it is an I/O error and comes from a user's impl *)
+Theorem c02_conversion_error_source : forall k a e,
+  to_value k a = Some (inl e) ->
+  (e = EInvalid /\ ((exists d, a = ADur d) \/ (exists l, a = AVecDur l) \/ a = AUserErr EInvalid)) \/
+  (exists ki id, e = EIo ki id /\ a = AUserErr (EIo ki id)).
+Proof. exact conversion_error_source. Qed.
+
+(* a rejection of kind IoError is never the library's own *)
+Theorem c02_io_kind_only_from_user : forall cfg c e,
+  client_line cfg c = Some (inl e) -> ekind e = IoError -> k_arg c = AUserErr e.
+Proof. exact io_kind_only_from_user. Qed.
+
+(* the outcome of such a call depends on the error and the call form only *)
+Theorem c02_user_error_independent : forall cfg cfg' fm c c' script script' e,
+  k_arg c = AUserErr e -> k_arg c' = AUserErr e ->
+  option_map fst (send_call cfg fm c script) = option_map fst (send_call cfg' fm c' script').
+Proof. exact user_error_call_independent. Qed.
